@@ -40,6 +40,8 @@ def do_import(prop, letter, src, sid):
         demo = os.path.join(src, 'demo_%s.py' % letter)
         notes = os.path.join(src, 'notes_%s.md' % letter)
         shutil.copy(demo, os.path.join(wt, 'demo.py'))
+        # (a demo may start fresh interpreters that import it by its name)
+        shutil.copy(demo, os.path.join(wt, os.path.basename(demo)))
         rc0, out0 = sh('%s demo.py' % PY, cwd=wt, env=env, timeout=900)
         rc, out = sh('git apply %s' % diff, cwd=wt)
         assert rc == 0, 'patch does not apply: ' + out
